@@ -7,9 +7,22 @@ From Coq Require Import NArith ZArith List Bool String.
 From FitV Require Import Model.Values Model.Bytes Model.Profile Model.IO Model.Header Model.Components Model.Route Model.Decode
   Spec.FitSyntax Spec.RouteSpec Spec.ComponentSpec Proofs.ComponentProofs
   Proofs.C18Defs Proofs.C18Good Proofs.C18Messages Proofs.C18Main
-  Proofs.StreamDenoteDefs Proofs.StreamDenoteLift Proofs.StreamDenoteMain Proofs.StreamDenoteFrame Proofs.StreamDenoteDecode.
+  Proofs.StreamDenoteDefs Proofs.StreamDenoteLift Proofs.StreamDenoteMain Proofs.StreamDenoteFrame Proofs.StreamDenoteDecode
+  Gen.AccumuFuncs Proofs.C18Accumu.
 Import ListNotations.
 Local Open Scope N_scope.
+
+(* ---- tie by translation: accumu.go itself, translated on every check into Gen/AccumuFuncs.v (struct of uint32
+   fields, constructor, pointer-receiver method as a state transformer, uint32 arithmetic mod 2^32), computes on every
+   state and argument -- and therefore on every sequence of calls -- what the accumulator of the model computes ---- *)
+Theorem C18_accumulator_translated :
+  (forall bits, acc_abs (go_uint32NewAccumulator bits) = new_accum bits) /\
+  acc_abs (mk_go_uint32Accumulator 0 0 0) = zero_accum /\
+  (forall s v, (fst (go_uint32Accumulator_accumulate s v), acc_abs (snd (go_uint32Accumulator_accumulate s v))) =
+               accumulate (acc_abs s) v) /\
+  (forall vs s, (fst (go_run s vs), acc_abs (snd (go_run s vs))) = model_run (acc_abs s) vs).
+Proof. exact (conj go_new_accumulator_is (conj go_zero_accumulator_is (conj go_accumulate_is go_run_is))). Qed.
+Print Assumptions C18_accumulator_translated.
 
 (* a 16-bit speed/altitude source is widened into its enhanced field, for every source bit pattern;
    an invalid source (0xFFFF) leaves the message untouched; no other field changes *)
